@@ -1107,3 +1107,75 @@ def r_dropless(ctx, view):
         ctx.anchor(T + "::new", f is not None)
         eff = {e for k in view.fx.reach(f.key) for e in view.fx.effects[k] if e in ("TW", "MW")}
         ctx.ob("R-DROPLESS", "%s::new:opens-nothing" % T, not eff, f.loc(), "constructor performs no table/map write (effects %s)" % sorted(eff))
+
+
+# ------------------------------------------------------------------------------------------
+# R-DBGPURE: a build with debug assertions does what the analysed build does
+# ------------------------------------------------------------------------------------------
+def _sig_events(view, f):
+    """multiset of the events of body f that change state or run user code (what a debug-only statement may not do)"""
+    import collections
+    fx = view.fx
+    out = collections.Counter()
+    for e in fx.events(f):
+        k = e["kind"]
+        if k in ("tw", "mw", "mwraw", "cap"):
+            out[(k, e.get("comp"), e.get("how") or e.get("name"), e.get("mclass"))] += 1
+        elif k == "call":
+            eff = {x for x in fx.effects.get(e["callee"], ()) if x in ("TW", "MW", "KEYMUT", "CMP", "MRUC")}
+            if eff:
+                out[("call", e["callee"], tuple(sorted(eff)))] += 1
+        elif k == "ext":
+            ci = e.get("ci")
+            if ci is not None and (ci.cmp or ci.mruc):
+                out[("user", e.get("name"), "cmp" if ci.cmp else "mruc")] += 1
+    return out
+
+
+def r_dbgpure(ctx, view, kinds=("TW", "MW", "KEYMUT", "CMP", "MRUC")):
+    """R-DBGPURE.  Every other rule reads the crate as a release build compiles it (`-Cdebug-assertions=off`): code under
+    `#[cfg(debug_assertions)]` does not exist there and the body of a `debug_assert!` is cut off by constant folding.  The tests,
+    and most users most of the time, run the other build.  So the default configuration is extracted a second time with debug
+    assertions ON and compared body by body: what exists only under debug assertions may read, but may not write a table or
+    the map, obtain a key mutably, compare priorities or run any other user code.  Then the verdict of all the other rules
+    carries over to the debug build."""
+    if view.config != "std":
+        return
+    from .engine import CheckError
+    ctx.cur = view
+    try:
+        dv = ctx.view("dbg")
+    except CheckError as e:
+        ctx.undecided.append("R-DBGPURE: the build with debug assertions could not be analysed (%s)" % str(e)[:200])
+        return
+    finally:
+        ctx.cur = view
+    ctx.views.pop("dbg", None)   # an auxiliary view: not one of the configurations the property's rules are evaluated in
+    want = set(kinds)
+    bad = 0
+    n = 0
+    for key in sorted(set(view.prog.fns) | set(dv.prog.fns)):
+        f, g = view.prog.fns.get(key), dv.prog.fns.get(key)
+        if g is None:
+            continue   # exists only WITHOUT debug assertions: the analysed build has it
+        n += 1
+        if f is None:
+            eff = {x for x in dv.fx.effects.get(key, ()) if x in want}
+            if eff:
+                bad += 1
+                ctx.ob("R-DBGPURE", "%s:debug-only-function" % key, False, g.loc(),
+                       "this function exists only under debug assertions and has the effects %s: the debug build writes / compares "
+                       "where the analysed build does not" % sorted(eff))
+            continue
+        a, b = _sig_events(view, f), _sig_events(dv, g)
+        extra = b - a
+        extra = {k: v for k, v in extra.items() if (k[0] in ("tw", "cap") and "TW" in want) or (k[0] in ("mw", "mwraw") and "MW" in want)
+                 or (k[0] == "call" and set(k[2]) & want) or (k[0] == "user" and (("CMP" in want and k[2] == "cmp") or ("MRUC" in want)))}
+        if extra:
+            bad += 1
+            ctx.ob("R-DBGPURE", "%s:debug-only-effects" % key, False, g.loc(),
+                   "with debug assertions on, this body additionally performs %s" % "; ".join(
+                       "%s x%d" % (" ".join(str(x) for x in k if x), v) for k, v in sorted(extra.items(), key=str))[:400])
+    ctx.ob("R-DBGPURE", "crate:bodies-compared", True, "",
+           "%d bodies compared between the builds without and with debug assertions; %d differ in state-changing / user-code events" % (n, bad))
+    ctx.floor("R-DBGPURE", n, 200)
